@@ -303,7 +303,11 @@ def run_case(ck, desc):
         ser = pd.Series(np.array(view), index=np.arange(len(view))[::-1])
         try:
             o_s = np.asarray(arr_call(ser), dtype=float)
-            if o_s.shape != np.shape(out) or not np.array_equal(o_s, np.asarray(out, dtype=float), equal_nan=True):
+            # (to the precision of the floating type involved: pandas may evaluate a float32 expression in another
+            #  order than numpy does - sweep #10 met a 1-ulp float32 difference in b_o_Standing)
+            out_f = np.asarray(out, dtype=float)
+            eps_s = float(np.finfo(np.float32 if view.dtype == np.float32 else np.float64).eps)
+            if o_s.shape != np.shape(out) or not np.all((np.abs(o_s - out_f) <= 256 * eps_s * np.abs(out_f) + 1e-300) | (np.isnan(o_s) & np.isnan(out_f))):
                 ck.violation("elementwise", {"fn": desc["fn"], "form": "pandas Series with a reversed integer index", "max_abs": float(np.nanmax(np.abs(o_s - np.asarray(out, dtype=float)))) if o_s.shape == np.shape(out) else None}, desc)
             ck.count("series_with_permuted_integer_index")
         except Exception as e:  # noqa: BLE001
